@@ -216,22 +216,16 @@ fn run(ctx: &mut Ctx) {
         }
     }
     // family spherical
-    let sets: Vec<_> = match ctx.guard(|| DSets::new(2, tier.pick(7, 8)).collect::<Vec<_>>()) {
-        Ok(v) => v,
-        Err(_) => vec![],
-    };
+    let sets: Vec<_> = ctx.supply("DSets::new", || DSets::new(2, tier.pick(7, 8)).collect::<Vec<_>>());
     for ds in sets {
         if !ctx.take() {
             continue;
         }
-        let syms = match ctx.guard(|| DSyms::new(&ds, Geometries::Spherical).collect::<Vec<_>>()) {
-            Ok(v) => v,
-            Err(_) => continue,
-        };
+        let syms = ctx.supply("DSyms::new", || DSyms::new(&ds, Geometries::Spherical).collect::<Vec<_>>());
         for sy in syms {
-            let fg = match ctx.guard(|| fundamental_group(&sy)) {
-                Ok(g) => g,
-                Err(_) => continue,
+            let fg = match ctx.supply("fundamental_group", || Some(fundamental_group(&sy))) {
+                Some(g) => g,
+                None => continue,
             };
             let ng = fg.nr_generators();
             let rels: Vec<Word> = fg.relators.iter().map(|w| w.iter().cloned().collect::<Word>()).filter(|w| !w.is_empty()).collect();
